@@ -10,6 +10,7 @@ import (
 	"encoding/json"
 	"fmt"
 	"os"
+	"os/exec"
 )
 
 type input struct {
@@ -149,3 +150,56 @@ func MapOrder(mode int) {}
 // Hook registers a harness-side callback for an environment stub
 // ("flock": func(fd, how int) bool, "now": func() int64, ...).
 func Hook(name string, f any) {}
+
+// CaptureStdout runs f and returns what it printed to os.Stdout.
+func CaptureStdout(f func()) string {
+	old := os.Stdout
+	tmp, err := os.CreateTemp("", "vfout")
+	if err != nil {
+		panic(err)
+	}
+	defer os.Remove(tmp.Name())
+	os.Stdout = tmp
+	func() {
+		defer func() { os.Stdout = old }()
+		f()
+	}()
+	tmp.Close()
+	data, _ := os.ReadFile(tmp.Name())
+	return string(data)
+}
+
+// CaptureStderr runs f and returns what it printed to os.Stderr.
+func CaptureStderr(f func()) string {
+	old := os.Stderr
+	tmp, err := os.CreateTemp("", "vferr")
+	if err != nil {
+		panic(err)
+	}
+	defer os.Remove(tmp.Name())
+	os.Stderr = tmp
+	func() {
+		defer func() { os.Stderr = old }()
+		f()
+	}()
+	tmp.Close()
+	data, _ := os.ReadFile(tmp.Name())
+	return string(data)
+}
+
+// TempDir returns a fresh scratch directory (virtual under the executor).
+func TempDir() string {
+	d, err := os.MkdirTemp("", "vfreplay")
+	if err != nil {
+		panic(err)
+	}
+	return d
+}
+
+// Bzip2 compresses file p to p.bz2 and removes p.  Under the executor the
+// content is kept as is (round trip of bzip2 is assumed).
+func Bzip2(p string) {
+	if err := exec.Command("bzip2", p).Run(); err != nil {
+		panic("vf: bzip2 " + p + ": " + err.Error())
+	}
+}
